@@ -427,6 +427,9 @@ class Calls(Interp):
         if v.ty.kind in ('bytes', 'list', 'str'):
             yield st, V(z3.Length(v.t), INT)
             return
+        if v.ty.kind == 'opt' and v.ty.args[0].kind in ('bytes', 'list', 'str') and st.spec:
+            yield st, V(z3.Length(opt_sort(to_sort(v.ty.args[0], self.reg)).val(v.t)), INT)
+            return
         if v.ty.kind in ('map', 'set'):
             card = self.uf('card_' + str(v.t.sort()).replace(' ', ''), v.t.sort(), z3.IntSort())
             st.assume(card(v.t) >= 0)
